@@ -53,6 +53,7 @@ BIG2 = 'BIG2' + 'z' * 12 + '\n' + 'w' * 10
 SMALL = 'sm'
 EXPECTED_SIGS = ('block_crash_lost_file',)
 KILL_RECORDS = []       # one per kill point: see run_workload
+STRICT_REPAIR = True    # after check(fix=True) a second check() must report NOTHING (empty parent directories are pruned since the C17 fix)
 SETUP_NOW = 900.0
 
 
@@ -288,7 +289,7 @@ def inspect(directory, kind, wl, k, clock):
                 out.append(('write_blocked', 'a write by another process after the kill took %.1f s' % (_time.time() - t0)))
             # 4. repair
             lib_check(c, fix=True)
-            ws2 = [w for w in lib_check(c) if not issubclass(w.category, diskcache.EmptyDirWarning)]
+            ws2 = [w for w in lib_check(c) if STRICT_REPAIR or not issubclass(w.category, diskcache.EmptyDirWarning)]
             if ws2 and not bad:
                 out.append(('repair_incomplete', 'after check(fix=True) a second check() still reports %r' % str(ws2[0].message).replace(directory, '<dir>')))
         finally:
